@@ -49,7 +49,7 @@ type fnResult struct {
 func (w *world) newCtx(con *Contract, fn *ssa.Function, mode string) *ctx {
 	return &ctx{w: w, con: con, fn: fn, mode: mode, seen: map[string]bool{}, hinfo: map[string]heapInfo{}, skolem: map[string]val{}, params: map[string]val{}, lastStoreOf: map[string]string{},
 		siteOrd: map[string]int{}, maxPaths: 6000, alias: map[string]string{}, assumed: map[string]bool{}, depthCap: 6,
-		cellRootType: map[int]types.Type{}, typeIDs: map[string]int{}, lastAllocType: map[string]types.Type{}, memo: map[string][]memoEntry{}, knownLen: map[string]int{}, ghostConst: map[string]term{}}
+		cellRootType: map[int]types.Type{}, cellAlloc: map[int]*ssa.Alloc{}, typeIDs: map[string]int{}, lastAllocType: map[string]types.Type{}, memo: map[string][]memoEntry{}, knownLen: map[string]int{}, ghostConst: map[string]term{}}
 }
 
 // verifyFunc symbolically executes fn (the function of con, or a concrete implementation of an interface method)
@@ -372,6 +372,12 @@ func (x *ctx) frameCheck(st, base, evalPre *state, con *Contract, mods []*ModIte
 			whole[x.ghostKey(mi.Ghost)] = true
 		case "wholekey":
 			whole[mi.Field] = true
+		case "allmaps":
+			for k := range x.hinfo {
+				if strings.HasPrefix(k, "G:mapP_") || strings.HasPrefix(k, "G:mapV_") || k == "G:mapN" {
+					whole[k] = true
+				}
+			}
 		case "mapof":
 			f := x.synth(con, mi.ArgFns[0])
 			v := x.evalSpecFn(evalPre, f, nil, x.bindArgs(f, nil, penv))
